@@ -257,7 +257,7 @@ def judge(case):
         pr = L.ref_parse_request(reqs[k])
         names = [L.ascii_upper(n) for n, _ in pr[3]]
         c = L.real_cfg(L.full_cfg(cfgd))
-        dangerous_untrusted = (c.header_map == "dangerous" and not L.ref_trusted(c.forwarded_allow_ips, peer)
+        dangerous_untrusted = (L.full_cfg(cfgd)["header_map"] == "dangerous" and not L.ref_trusted(c.forwarded_allow_ips, peer)
                                and b"SCRIPT_NAME" in names)
         if env.get("wsgi.url_scheme") != exp.get("wsgi.url_scheme"):
             fails.append((None, "request %d: wsgi.url_scheme = %r, reference %r" % (k + 1, env.get("wsgi.url_scheme"), exp.get("wsgi.url_scheme"))))
